@@ -26,6 +26,7 @@ SPECIAL = {
     "spnullary": "pred z();\npred w();\nrule a {\n  if z();\n  then w();\n}\nrule b {\n  then z();\n}\n",
     "spenum": "enum E {\n  Aa(),\n  Bb(E),\n  Cc(E, E)\n}\n",
     "spmodel": "type C;\nmodel Mm {\n  pred el(c: C);\n  func pick() -> C;\n}\n",
+    "spmember": "type Color;\nmodel Graph {\n  type Node;\n  pred tagged(c: Color, n: Node);\n  pred edge(a: Node, b: Node);\n  func pick(c: Color) -> Node;\n  pred pair(c: Color, d: Color);\n}\n",
     "spconst": "type A;\nfunc c() -> A;\nfunc d() -> A;\npred p(A);\nrule a {\n  then c()!;\n}\nrule b {\n  if x = c();\n  if y = d();\n  then x = y;\n}\n",
 }
 
